@@ -28,6 +28,7 @@ SWEEPS = {
     "C10": [("crate::Hasher::reset", {})],
     "C11": [("crate::io::copy_wide", {})],
     "C13": [("crate::parse_check_line", {}), ("crate::hash_one_input", {})],
+    "C12": [("crate::check_one_line", {})],
     "C14": [("crate::Hash::from_hex", {})],
     "C15": [("reference_impl::Hasher::update", {})],
     "C16": [("crate::traits::Hasher::Update__update", {}), ("crate::guts::ChunkState::new", {})],
